@@ -187,11 +187,18 @@ def apply_one(mod: str, v, field, applied: list[str]):
             return ("str", tuple(toks), v[2])
         if k == "re":
             pat = v[1]
-            if pat.endswith("\\$") or pat.endswith("\\.*") or pat.startswith("\\^"):
-                raise Ambiguous("escaped anchor at regex edge")
+
+            def _esc(pos):  # character at pos is escaped: an odd number of backslashes stands before it
+                n = 0
+                while pos - n > 0 and v[1][pos - n - 1] == "\\":
+                    n += 1
+                return n % 2 == 1
+
+            # an escaped dollar sign / escaped dot at the end is a literal, not an anchor / 'any text'
+            open_end = (v[1].endswith(".*") and not _esc(len(v[1]) - 2)) or (v[1].endswith("$") and not _esc(len(v[1]) - 1))
             if pre and not (pat.startswith(".*") or pat.startswith("^")):
                 pat = ".*" + pat
-            if post and not (v[1].endswith(".*") or v[1].endswith("$")):
+            if post and not open_end:
                 pat = pat + ".*"
             try:  # the extended pattern must still be a regular expression ('.*(?i)x' is not)
                 _re.compile(pat)
